@@ -125,6 +125,11 @@ type pageScript struct {
 	// derived
 	expect   []pageRow
 	boundary map[int]bool // number of rows consumed at which the next call switches pages
+	// race[n]: at this boundary the consumer does not wait for the prefetch to come and go:
+	// if the prefetched page is on its way (its answer withheld by the node), the consumer
+	// walks into the page end while the prefetch is still in flight, and the answer is
+	// released by a helper goroutine of the bubble once the consumer is inside the driver
+	race map[int]bool
 	cumEnd   []int        // cumEnd[p] = rows in pages 0..p
 
 	// re-execution of the kept *gocql.Query value (non-manual queries only)
@@ -333,6 +338,12 @@ func (pr *pageRun) drawScript(tp *kernel.Tape, ti, oi, qid, proto, sessPageSize 
 			s.expect = append(s.expect, rows...)
 			if p < s.last() {
 				s.boundary[cum] = true
+				if pr.faults && tp.Chance(1, 3) {
+					if s.race == nil {
+						s.race = map[int]bool{}
+					}
+					s.race[cum] = true
+				}
 			}
 		}
 	}
@@ -960,12 +971,65 @@ func (pr *pageRun) buildQuery(sess *gocql.Session, s *pageScript) *gocql.Query {
 // rowStep parks the task before its next row call; at a page boundary it first waits for
 // the gate. n is the number of rows consumed so far.
 func (pr *pageRun) rowStep(t *kernel.Task, s *pageScript, n int) bool {
-	if s.boundary[n] {
+	if s.boundary[n] && !s.race[n] {
 		if !pr.waitNoPrefetch() {
 			return false
 		}
 	}
-	return t.Step(fmt.Sprintf("scan %s #%d", s.token, n))
+	if !t.Step(fmt.Sprintf("scan %s #%d", s.token, n)) {
+		return false
+	}
+	if s.boundary[n] && s.race[n] {
+		// (this task was just released by the root goroutine, which now waits for the bubble
+		// to become quiescent: the node's books are ours to read)
+		// (nothing may be held at a yield point: the receive loop of the connection, for one,
+		// has to run without the root goroutine's help)
+		if r := pr.heldRowsReply(s); r != nil && len(pr.k.ParkedKeys()) == 0 && pr.prefetchAlive() {
+			// The consumer is about to reach the page end while the prefetch of the next page
+			// waits for its answer. In a correct driver the consumer then waits for the prefetch
+			// (on a mutex, which the simulated clock cannot see through), so the answer must
+			// arrive without the root goroutine's help: a helper of this bubble sends it as soon
+			// as the consumer has gone as far as it can.
+			pr.k.HoldParks()
+			pr.k.Probe("consumer-reaches-page-end-during-prefetch")
+
+			pr.k.Rec("race %s: page end reached with the prefetch in flight", s.token)
+			go func() {
+				for i := 0; i < 8; i++ {
+					runtime.Gosched()
+				}
+				pr.cl.Deliver(r)
+			}()
+			return true
+		}
+		if !pr.waitNoPrefetch() {
+			return false
+		}
+	}
+	return true
+}
+
+// heldRowsReply returns the withheld rows answer to the request the prefetch goroutine of the
+// current execution is waiting for: the last request of the execution, issued while the
+// consumer was outside the driver, answered with rows, nothing of it sent yet.
+func (pr *pageRun) heldRowsReply(s *pageScript) *node.Reply {
+	pr.mu.Lock()
+	g := s.cur
+	pr.mu.Unlock()
+	if g == nil || len(g.reqs) == 0 {
+		return nil
+	}
+	last := g.reqs[len(g.reqs)-1]
+	r := last.reply
+	if !last.async || r == nil || !strings.HasPrefix(r.Label, "ROWS ") || r.Sent != 0 || r.Dropped || r.SC.Dead || r.SC.C.ClientClosed() {
+		return nil
+	}
+	for _, h := range pr.cl.Held() {
+		if h == r {
+			return r
+		}
+	}
+	return nil
 }
 
 // runQuery performs one scripted query: one iteration and, for a share of the queries, a
